@@ -112,8 +112,76 @@ fn check(c: &Case, quick: bool) -> Result<String, (String, String, String)> {
     Ok(format!("{}:{}", kind, family))
 }
 
+// ---------------------------------------------------------------------------
+// faults that are only detected at the end of the text (a block without its closing line): the
+// property does not say which statement offends, but the reported place must not depend on the
+// line-ending convention and must lie inside the text or immediately at its end
+// ---------------------------------------------------------------------------
+
+const CLOSERS: [&str; 7] = ["NEXT", "WEND", "LOOP", "END IF", "END SELECT", "END SUB", "END FUNCTION"];
+
+fn unterminated_texts(variant: usize) -> Vec<(String, Vec<String>)> {
+    let base = print(&build(variant, usize::MAX, "").prog, &vcore::gprint::Layout::default()).text;
+    let lines: Vec<&str> = base.lines().collect();
+    let mut out = vec![];
+    for (i, l) in lines.iter().enumerate() {
+        let t = l.trim().to_ascii_uppercase();
+        let Some(closer) = CLOSERS.iter().find(|c| t == **c || t.starts_with(&format!("{} ", c))) else { continue };
+        let kept: Vec<&str> = lines.iter().enumerate().filter(|(j, _)| *j != i).map(|(_, l)| *l).collect();
+        out.push((format!("{} of row {} removed (variant {})", closer, i + 1, variant), kept.iter().map(|s| s.to_string()).collect()));
+    }
+    out
+}
+
+fn check_unterminated(label: &str, lines: &[String], hist: &mut BTreeMap<String, u64>, bads: &mut Vec<Value>, replay: Value) -> u64 {
+    let mut n = 0;
+    for final_eol in [true, false] {
+        let mut seen: Vec<(String, String, (String, u32, u32))> = vec![];
+        for (ename, eol) in [("LF", "\n"), ("CR LF", "\r\n"), ("CR", "\r")] {
+            let mut text = lines.join(eol);
+            if final_eol {
+                text.push_str(eol);
+            }
+            let o = run_pipeline(&text, &RunOpts { budget: 100_000, ..RunOpts::default() });
+            n += 1;
+            match &o.end {
+                End::ParseError { kind, row, col } => {
+                    if *row < 1 || *row as usize > lines.len() + 1 || *col < 1 {
+                        *hist.entry("differ".into()).or_insert(0) += 1;
+                        bads.push(json!({"sig": "C11|unterminated|outside-the-text", "summary": format!("{} ({} line ends, final line end: {}): the error is reported at {}:{}, the text has {} lines", label, ename, final_eol, row, col, lines.len()), "text": text, "case": replay.clone()}));
+                    }
+                    seen.push((ename.to_string(), text, (kind.clone(), *row, *col)));
+                }
+                other => {
+                    *hist.entry("differ".into()).or_insert(0) += 1;
+                    bads.push(json!({"sig": format!("C11|unterminated|not-a-syntax-error|{}", other.class()), "summary": format!("{} ({} line ends): expected a syntax error, got {}", label, ename, other.class()), "text": text, "case": replay.clone()}));
+                }
+            }
+        }
+        if let Some((_, _, first)) = seen.first() {
+            if let Some((ename, text, other)) = seen.iter().find(|(_, _, p)| p != first) {
+                *hist.entry("differ".into()).or_insert(0) += 1;
+                bads.push(json!({"sig": format!("C11|unterminated|place-depends-on-line-ends|{}", ename), "summary": format!("{} (final line end: {}): with LF line ends the error is {:?}, with {} line ends it is {:?}", label, final_eol, first, ename, other), "text": text, "case": replay.clone()}));
+            } else {
+                *hist.entry("located:unterminated block, same place under LF / CR LF / CR".into()).or_insert(0) += 1;
+            }
+        }
+    }
+    n
+}
+
 pub fn worker(case: &Value) -> Value {
     let quick = case["quick"].as_bool().unwrap_or(true);
+    if let Some(v) = case["unterminated"].as_u64() {
+        let mut hist: BTreeMap<String, u64> = BTreeMap::new();
+        let mut bads = vec![];
+        let mut n = 0;
+        for (label, lines) in unterminated_texts(v as usize) {
+            n += check_unterminated(&label, &lines, &mut hist, &mut bads, case.clone());
+        }
+        bads.truncate(30);
+        return json!({"n": n, "nontrivial": n, "hist": hist, "bad": bads});
+    }
     let sites = total_sites();
     let nl = layouts(quick).len();
     let mut hist: BTreeMap<String, u64> = BTreeMap::new();
@@ -165,6 +233,9 @@ pub fn drive(tier: &str) -> i32 {
         cases.push(json!({"quick": quick, "lo": lo, "hi": (lo + 150).min(total)}));
         lo += 150;
     }
+    for k in 0..variants {
+        cases.push(json!({"quick": quick, "unterminated": variant_of(k, quick)}));
+    }
     let total_cases = cases.len();
     let cap = run.wall_cap_s;
     let t0 = run.reporter.start;
@@ -174,7 +245,7 @@ pub fn drive(tier: &str) -> i32 {
         run.capped = true;
     }
     let mut ev = Evidence::new("exploration");
-    ev.set("rule", "base programs (IF > FOR > SELECT and WHILE > DO at module level; SUB Outer -> SUB Inner -> FUNCTION Deep% called from inside blocks; 8 variants: NEXT with / without counter, DO forms, textual order of the subprograms, ordinary / STATIC subprograms) x every injection site (first / inner / last statement of the module, of every block and of every subprogram, single-line IF bodies; call depth 0..3) x 16 fault statements of 7 kinds (syntax, type mismatch, undefined label, argument count, division by zero, subscript out of range, overflow) x layouts (LF / CR LF / CR x blank lines x trailing comments x colon-joined statements x keyword case x indentation). Oracle: the printer's position map (self-checked against the text): stage and kind of the error, row = row of the injected statement, column inside its text (syntax errors: up to two columns after it), and for run-time errors the rows of the active call sites, innermost first.");
+    ev.set("rule", "base programs (IF > FOR > SELECT and WHILE > DO at module level; SUB Outer -> SUB Inner -> FUNCTION Deep% called from inside blocks; 8 variants: NEXT with / without counter, DO forms, textual order of the subprograms, ordinary / STATIC subprograms) x every injection site (first / inner / last statement of the module, of every block and of every subprogram, single-line IF bodies; call depth 0..3) x 16 fault statements of 7 kinds (syntax, type mismatch, undefined label, argument count, division by zero, subscript out of range, overflow) x layouts (LF / CR LF / CR x blank lines x trailing comments x colon-joined statements x keyword case x indentation). Oracle: the printer's position map (self-checked against the text): stage and kind of the error, row = row of the injected statement, column inside its text (syntax errors: up to two columns after it), and for run-time errors the rows of the active call sites, innermost first. unterminated: every base program with one closing line (NEXT, WEND, LOOP, END IF, END SELECT, END SUB, END FUNCTION) removed, under LF / CR LF / CR line ends with and without a final line end: a syntax error whose row and column are the same under the three conventions and lie inside the text or immediately at its end.");
     ev.set("exhaustive", !run.capped);
     ev.set("plan", json!({"variants": variants, "sites": sites, "faults": FAULTS.len(), "layouts": nl, "programs": total}));
     ev.set("distinct_nontrivial", run.nontrivial);
